@@ -25,6 +25,8 @@ CLAIMED = {
          "Lean 4 theorem (refinement to an independent envelope walker) + differential correspondence", "9/C05"),
  "C17": ("name_new_iff, label_new_iff, display_new, subdomain_iff, without_iff, link_local_iff proved for all texts/names against the label grammar written from the property; correspondence bounded-exhaustive.",
          "Lean 4 theorem (equivalence with a declarative grammar) + bounded-exhaustive correspondence", "9/C17"),
+ "C19": ("txt_split_join (for every String), chunks_fit, attrs_roundtrip (keys without '=', entries within 255 bytes, absent vs empty preserved, via a proved UTF-8 lemma: byte 0x3D occurs in the encoding only as the character '='), first_occurrence_wins, long_attrs_split, overlong_refused proved on the model; correspondence sampled with boundary-directed generators.",
+         "Lean 4 theorem (round trips over core's UTF-8 theory) + differential correspondence", "9/C19"),
 }
 PENDING = {f"C{n:02d}": "check not built yet (implementation of DESIGN.md in progress); will be claimed at level proof" for n in range(1, 21)}
 try:
